@@ -42,6 +42,7 @@ const (
 	tkArr2
 	tkCnt
 	tkHeap
+	tkSlice // []K / []V made by the function itself: a list with Go's run-time checks (coq/GoHeap.v)
 )
 
 type tty struct {
@@ -89,7 +90,7 @@ type tconst struct {
 	val string
 }
 
-type tflags struct{ cnt, wh, wr, fuel, needs bool }
+type tflags struct{ cnt, wh, wr, fuel, needs, root, wroot bool } // root / wroot: treelink.go
 
 type tparam struct {
 	name string
@@ -129,11 +130,16 @@ type tunit struct {
 	tparams map[string]bool
 	// discovery pass: every function is translated once only to find out which functions it really calls (the
 	// callee of `x.M()` depends on the type of x), for the recursion analysis
-	discover bool
-	edges    map[*tfunc][]*tfunc
+	discover  bool
+	edges     map[*tfunc][]*tfunc
+	usesSlice bool       // some function makes a slice: GoHeap.v
+	link      *tlinkInfo // treelink.go
 }
 
 func (x tty) coq(tu *tunit) string {
+	if s, ok := linkCoqType(x); ok { // treelink.go
+		return s
+	}
 	switch x.k {
 	case tkInt, tkElem:
 		return "Z"
@@ -149,12 +155,14 @@ func (x tty) coq(tu *tunit) string {
 		return "(" + strings.Repeat("Z -> ", x.n) + "bool)"
 	case tkArr2:
 		return "GoTreeHeap.arr2"
+	case tkSlice:
+		return "(Datatypes.list Z)"
 	case tkCnt:
 		return "nat"
 	case tkHeap:
 		return "(heap " + mangle(tu.cell.name) + ")"
 	}
-	return "unit"
+	return btCoq(x) // B-tree mode (btreeheap.go): slices and entries; "unit" otherwise
 }
 
 func tzero(x tty) string {
@@ -168,7 +176,7 @@ func tzero(x tty) string {
 	case tkArr2:
 		return "(@None nat, @None nat)"
 	}
-	return ""
+	return btZero(x) // B-tree mode (btreeheap.go); "" otherwise
 }
 
 const tvCnt, tvHeap = "#c", "#h"
@@ -179,6 +187,8 @@ func tv(n string) string {
 		return "ncmp"
 	case tvHeap:
 		return "h"
+	case tvRoot: // treelink.go
+		return "root"
 	}
 	return vname(n)
 }
@@ -240,8 +250,13 @@ type tfx struct {
 	flat   []ast.Stmt
 	topEnv int
 	k0     tcont
+	// locals: slices made by this function (the only ones that may be written) and iterator records built from the
+	// receiver (`it := tree.Iterator()`: their container is the receiver)
+	localSlice map[string]bool
+	localRec   map[string]bool
 }
 
+func (h *tfx) usesSlice()                                       { h.tu.usesSlice = true }
 func (h *tfx) bad(p token.Pos, format string, a ...interface{}) { h.tu.t.unsupported(p, format, a...) }
 func (h *tfx) fresh(pfx string) string {
 	h.tmp++
@@ -254,6 +269,8 @@ func (h *tfx) rebind(n string, e tenv) {
 		h.used.cnt = true
 	case tvHeap:
 		h.used.wh = true
+	case tvRoot: // treelink.go
+		h.used.wroot = true
 	}
 	if n == h.fn.recv && h.fn.recvSt != nil && !h.fn.recvSt.cell {
 		h.used.wr = true
@@ -348,6 +365,9 @@ func (tu *tunit) typeOf(x ast.Expr) tty {
 			return t
 		}
 	case *ast.StarExpr:
+		if lt, ok := tu.linkTypeOf(n); ok { // **Node, *K: treelink.go
+			return lt
+		}
 		if s := tu.structOf(n.X); s != nil {
 			if s.cell {
 				return tty{k: tkPtr}
@@ -377,6 +397,12 @@ func (tu *tunit) typeOf(x ast.Expr) tty {
 		if lit, ok := n.Len.(*ast.BasicLit); ok && lit.Value == "2" && tu.typeOf(n.Elt).k == tkPtr {
 			return tty{k: tkArr2}
 		}
+		if n.Len == nil && tu.typeOf(n.Elt).k == tkElem {
+			return tty{k: tkSlice}
+		}
+	}
+	if t, ok := tu.btTypeOf(x); ok { // B-tree mode (btreeheap.go)
+		return t
 	}
 	tu.t.unsupported(x.Pos(), "type %T in a tree pointer-mode file (int, int8, byte, bool, type parameters, named bool / byte types, *Node, *Tree, utils.Comparator[K], func(K, V) bool, [2]*Node only)", x)
 	return tty{}
@@ -418,6 +444,9 @@ func (h *tfx) expr(x ast.Expr, e tenv) (string, string, tty) {
 		h.bad(n.Pos(), "identifier %s", n.Name)
 	case *ast.UnaryExpr:
 		if n.Op == token.AND {
+			if b, s, t, ok := h.addrExpr(n, e); ok { // &tree.Root, &q.Children[a], &q.Key: treelink.go
+				return b, s, t
+			}
 			return h.composite(n, e)
 		}
 		b, s, t := h.expr(n.X, e)
@@ -459,6 +488,9 @@ func (h *tfx) expr(x ast.Expr, e tenv) (string, string, tty) {
 			c := h.fresh("c")
 			return b + "do " + c + " <- deref h " + s + ";\n", "(" + f.coq + " " + c + ")", f.ty
 		}
+		if bb, ss, tt, ok := h.btSelect(n, b, s, t); ok { // B-tree mode: entry.Key / entry.Value
+			return bb, ss, tt
+		}
 		h.bad(n.Pos(), "field selection .%s", n.Sel.Name)
 	case *ast.IndexExpr:
 		if ix, ok := n.X.(*ast.SelectorExpr); ok && ix.Sel.Name == "Compare" { // cmp.Compare[K]
@@ -468,6 +500,9 @@ func (h *tfx) expr(x ast.Expr, e tenv) (string, string, tty) {
 		}
 		b1, a, ta := h.expr(n.X, e)
 		b2, i, ti := h.expr(n.Index, e)
+		if bb, ss, tt, ok := h.btIndex(n, b1+b2, a, ta, i, ti); ok { // B-tree mode: s[i] on a slice
+			return bb, ss, tt
+		}
 		if ta.k != tkArr2 || ti.k != tkInt {
 			h.bad(n.Pos(), "index expression")
 		}
@@ -475,12 +510,20 @@ func (h *tfx) expr(x ast.Expr, e tenv) (string, string, tty) {
 		return b1 + b2 + "do " + x + " <- GoTreeHeap.arr2_get " + a + " " + i + ";\n", x, tty{k: tkPtr}
 	case *ast.BinaryExpr:
 		return h.binary(n, e)
+	case *ast.StarExpr: // *qp: treelink.go
+		return h.starExpr(n, e)
 	case *ast.CallExpr:
+		if b, s, t, ok := h.conversion(n, e); ok { // int8(e): treelink.go
+			return b, s, t
+		}
 		b, rs, ts := h.call(n, e)
 		if len(rs) != 1 {
 			h.bad(n.Pos(), "call with %d results inside an expression", len(rs))
 		}
 		return b, rs[0], ts[0]
+	}
+	if bb, ss, tt, ok := h.btExpr(x, e); ok { // B-tree mode: s[a:b], []T{...}
+		return bb, ss, tt
 	}
 	h.bad(x.Pos(), "expression %T", x)
 	return "", "", tty{}
@@ -541,6 +584,13 @@ func (h *tfx) binary(n *ast.BinaryExpr, e tenv) (string, string, tty) {
 		if ints {
 			return b, "(" + a + " " + n.Op.String() + " " + c + ")", ta
 		}
+	case token.QUO:
+		if r, ok := h.btQuo(n, a, c, ints); ok { // B-tree mode: division by a non-zero literal
+			return b, r, ta
+		}
+		if ints { // treelink.go
+			return b, h.quoExpr(n, a, c), ta
+		}
 	case token.XOR:
 		if ints { // on the non-negative ints these files use it for (a ^ 1)
 			return b, "(Z.lxor " + a + " " + c + ")", ta
@@ -589,6 +639,9 @@ func (h *tfx) composite(u *ast.UnaryExpr, e tenv) (string, string, tty) {
 	}
 	st := tu.structOf(cl.Type)
 	if st == nil {
+		if bb, ss, tt, ok := h.btPairLit(cl, e); ok { // B-tree mode: &Entry{Key: k, Value: v}
+			return bb, ss, tt
+		}
 		h.bad(u.Pos(), "composite literal of an unknown type")
 	}
 	vals := map[string]string{}
@@ -610,6 +663,7 @@ func (h *tfx) composite(u *ast.UnaryExpr, e tenv) (string, string, tty) {
 		if !tv.eq(f.ty) {
 			h.bad(kv.Value.Pos(), "value of field %s has an unexpected type", f.name)
 		}
+		h.btLitField(kv.Value, tv, e) // B-tree mode: a slice stored in a node literal must be fresh (aliasing)
 		if f.container {
 			// the container an iterator walks: must be the receiver (it is a parameter of the iterator's methods)
 			id, ok := kv.Value.(*ast.Ident)
@@ -654,9 +708,12 @@ func (h *tfx) composite(u *ast.UnaryExpr, e tenv) (string, string, tty) {
 // a call: binds, result terms, result types
 func (h *tfx) call(c *ast.CallExpr, e tenv) (string, []string, []tty) {
 	tu := h.tu
+	if bb, rs, ts, ok := h.btCall(c, e); ok { // B-tree mode: len, append, copy, panic, []T(nil)
+		return bb, rs, ts
+	}
 	var fn *tfunc
 	binds := ""
-	recvTerm, recvOwn, viaContainer := "", false, false
+	recvTerm, recvOwn, viaContainer, localRec := "", false, false, ""
 	fun := c.Fun
 	if ix, ok := fun.(*ast.IndexExpr); ok {
 		if _, isSel := ix.X.(*ast.SelectorExpr); !isSel {
@@ -665,6 +722,17 @@ func (h *tfx) call(c *ast.CallExpr, e tenv) (string, []string, []tty) {
 	}
 	if ix, ok := fun.(*ast.IndexListExpr); ok {
 		fun = ix.X
+	}
+	if id, ok := c.Fun.(*ast.Ident); ok && id.Name == "make" && len(c.Args) == 2 { // make([]K, n): a fresh slice of zeros
+		if _, sh := e.vars["make"]; !sh && tu.typeOf(c.Args[0]).k == tkSlice {
+			b, l, tl := h.expr(c.Args[1], e)
+			if tl.k != tkInt {
+				h.bad(c.Pos(), "make with a non-int length")
+			}
+			r := h.fresh("s") // a negative length panics
+			h.usesSlice()
+			return b + "do " + r + " <- GoHeap.hs_make " + l + " " + l + ";\n", []string{r}, []tty{{k: tkSlice}}
+		}
 	}
 	switch f := fun.(type) {
 	case *ast.Ident:
@@ -722,8 +790,11 @@ func (h *tfx) call(c *ast.CallExpr, e tenv) (string, []string, []tty) {
 					viaContainer = true
 				}
 			}
-			if !recvOwn && !viaContainer {
-				h.bad(c.Pos(), "method call on a record that is neither the receiver nor its container")
+			if id, ok := f.X.(*ast.Ident); ok && h.localRec[id.Name] {
+				localRec = id.Name
+			}
+			if !recvOwn && !viaContainer && localRec == "" {
+				h.bad(c.Pos(), "method call on a record that is neither the receiver, its container, nor an iterator built from the receiver")
 			}
 		case tkPtr:
 			fn = tu.byKey[tu.cell.name+"."+f.Sel.Name]
@@ -761,13 +832,19 @@ func (h *tfx) call(c *ast.CallExpr, e tenv) (string, []string, []tty) {
 		s += " ncmp"
 	}
 	s += " h"
+	rootArg, rootPat, rootPost := h.callRoot(c, fn, e) // treelink.go
+	s += rootArg
 	if fn.fl.needs {
 		cf := fn.recvSt.containerField()
-		if !recvOwn {
+		switch {
+		case recvOwn:
+			h.used.needs = true
+			s += " " + vname(cf.name)
+		case localRec != "": // the container of an iterator built from the receiver is the receiver
+			s += " " + vname(h.fn.recv)
+		default:
 			h.bad(c.Pos(), "call of %s (which needs its container) on something that is not the receiver", fn.name)
 		}
-		h.used.needs = true
-		s += " " + vname(cf.name)
 	}
 	if fn.recvSt != nil {
 		s += " " + recvTerm
@@ -789,12 +866,20 @@ func (h *tfx) call(c *ast.CallExpr, e tenv) (string, []string, []tty) {
 		h.rebind(tvHeap, e)
 		pat = append(pat, "h")
 	}
+	if rootPat != "" {
+		pat = append(pat, rootPat)
+	}
 	if fn.fl.wr {
-		if !recvOwn {
+		switch {
+		case recvOwn:
+			h.rebind(h.fn.recv, e)
+			pat = append(pat, vname(h.fn.recv))
+		case localRec != "":
+			h.rebind(localRec, e)
+			pat = append(pat, vname(localRec))
+		default:
 			h.bad(c.Pos(), "call of %s, which modifies its receiver, on something that is not the receiver variable", fn.name)
 		}
-		h.rebind(h.fn.recv, e)
-		pat = append(pat, vname(h.fn.recv))
 	}
 	var rs []string
 	for range fn.results {
@@ -808,7 +893,7 @@ func (h *tfx) call(c *ast.CallExpr, e tenv) (string, []string, []tty) {
 	} else if len(pat) > 1 {
 		p = "(" + strings.Join(pat, ", ") + ")"
 	}
-	return binds + "do " + p + " <- " + s + ";\n", rs, fn.results
+	return binds + "do " + p + " <- " + s + ";\n" + rootPost, rs, fn.results
 }
 
 // ---------------------------------------------------------------- statements
@@ -820,6 +905,9 @@ func (h *tfx) stateNames() []string {
 	}
 	if h.fn.fl.wh {
 		st = append(st, "h")
+	}
+	if h.fn.fl.wroot {
+		st = append(st, tv(tvRoot))
 	}
 	if h.fn.fl.wr {
 		st = append(st, vname(h.fn.recv))
@@ -884,13 +972,14 @@ func tHasExit(n ast.Node) bool { return tHasReturn(n) || tHasBranch(n) }
 
 func (h *tfx) assign(lhs ast.Expr, val string, tvl tty, define bool, e tenv) (string, tenv) {
 	tu := h.tu
+	h.btSliceGuard(lhs, val, tvl) // B-tree mode: slice values only through a checked single assignment (aliasing)
 	switch l := lhs.(type) {
 	case *ast.Ident:
 		if l.Name == "_" {
 			return "", e
 		}
 		vi, exists := e.vars[l.Name]
-		if define && (!exists || vi.depth != e.depth) {
+		if define && (!exists || (vi.depth != e.depth && !h.btSameScope(vi, e))) {
 			if exists {
 				h.bad(l.Pos(), "variable %s shadows an outer variable", l.Name)
 			}
@@ -902,8 +991,8 @@ func (h *tfx) assign(lhs ast.Expr, val string, tvl tty, define bool, e tenv) (st
 		if !exists || !vi.ty.eq(tvl) {
 			h.bad(l.Pos(), "assignment to %s", l.Name)
 		}
-		if vi.ty.k == tkRec {
-			h.bad(l.Pos(), "assignment to the record variable %s", l.Name)
+		if vi.ty.k == tkRec || vi.ty.k == tkSlice {
+			h.bad(l.Pos(), "assignment to the record / slice variable %s", l.Name)
 		}
 		h.rebind(l.Name, e)
 		return "let " + tv(l.Name) + " := " + val + " in\n", e
@@ -932,7 +1021,22 @@ func (h *tfx) assign(lhs ast.Expr, val string, tvl tty, define bool, e tenv) (st
 		}
 		h.rebind(tvHeap, e)
 		return b + "do h <- store h " + p + " (" + tu.cell.name + "_with_" + f.name + " " + val + ");\n", e
-	case *ast.IndexExpr: // p.Children[i] = val
+	case *ast.StarExpr: // *qp = val: treelink.go
+		return h.starAssign(l, val, tvl, e)
+	case *ast.IndexExpr: // p.Children[i] = val; keys[i] = val
+		if out, ok := h.btIndexAssign(l, val, tvl, e); ok { // B-tree mode: p.Entries[i] = val on a slice field
+			return out, e
+		}
+		if id, ok := l.X.(*ast.Ident); ok { // an element of a slice made by this function; out of range = panic
+			vi, exists := e.vars[id.Name]
+			bi, i, ti := h.expr(l.Index, e)
+			if !exists || vi.ty.k != tkSlice || !h.localSlice[id.Name] || ti.k != tkInt || tvl.k != tkElem {
+				h.bad(lhs.Pos(), "assignment to an element of something that is not a slice made by this function")
+			}
+			h.rebind(id.Name, e)
+			h.usesSlice()
+			return bi + "do " + tv(id.Name) + " <- GoHeap.hs_set " + tv(id.Name) + " " + i + " " + val + ";\n", e
+		}
 		sel, ok := l.X.(*ast.SelectorExpr)
 		if !ok {
 			h.bad(lhs.Pos(), "assignment target")
@@ -1040,6 +1144,7 @@ func (h *tfx) stmts(ss []ast.Stmt, e tenv, k tcont) string {
 		}
 		for i, r := range n.Results {
 			b, v, tvl := h.expr(r, e)
+			v, tvl = h.btCoerce(r, v, tvl, h.fn.results[i], e) // B-tree mode: nil / a key as interface{}
 			if !tvl.eq(h.fn.results[i]) {
 				h.bad(r.Pos(), "returned value of unexpected type")
 			}
@@ -1054,7 +1159,12 @@ func (h *tfx) stmts(ss []ast.Stmt, e tenv, k tcont) string {
 		return binds + h.ret(vals)
 	case *ast.IfStmt:
 		if n.Init != nil {
-			h.bad(n.Pos(), "if with an initialiser")
+			if !h.tu.u.Spec.BTree {
+				h.bad(n.Pos(), "if with an initialiser")
+			}
+			// B-tree mode: if init; cond {..} = { init; if cond {..} }
+			blk := &ast.BlockStmt{Lbrace: n.Pos(), List: []ast.Stmt{n.Init, &ast.IfStmt{If: n.If, Cond: n.Cond, Body: n.Body, Else: n.Else}}, Rbrace: n.End()}
+			return h.stmts(append([]ast.Stmt{blk}, rest...), e, k)
 		}
 		b, c, tc := h.expr(n.Cond, e)
 		if tc.k != tkBool {
@@ -1108,6 +1218,9 @@ func (h *tfx) stmts(ss []ast.Stmt, e tenv, k tcont) string {
 	case *ast.BlockStmt:
 		return h.stmts(n.List, e.deeper(), func(e2 tenv) string { return next(e2.dropTo(e.depth)) })
 	}
+	if r, ok := h.btStmt(s, e, next); ok { // B-tree mode: range over a slice
+		return r
+	}
 	h.bad(s.Pos(), "statement %T", s)
 	return ""
 }
@@ -1117,6 +1230,9 @@ func (h *tfx) lhsReadsHeap(lhs ast.Expr, e tenv) bool {
 	switch l := lhs.(type) {
 	case *ast.Ident:
 		return false
+	case *ast.StarExpr: // *qp with qp a plain variable (a link value): evaluating the operand reads nothing
+		_, plain := l.X.(*ast.Ident)
+		return !plain
 	case *ast.SelectorExpr:
 		_, plain := l.X.(*ast.Ident)
 		return !plain
@@ -1178,10 +1294,29 @@ func (h *tfx) assignStmt(n *ast.AssignStmt, e tenv, next tcont) string {
 		var tvl tty
 		eff := h.assignedBy(e, func() { h.expr(n.Rhs[0], e) })
 		b, v, tvl = h.expr(n.Rhs[0], e)
+		v, tvl = h.btNil(n.Lhs[0], n.Rhs[0], v, tvl, e) // B-tree mode: nil of an entry / slice / interface type
 		if len(eff) > 0 && h.lhsReadsHeap(n.Lhs[0], e) {
 			// Go evaluates the pointer operand of the left-hand side BEFORE the right-hand side; here it would be read
 			// from the state AFTER the call
 			h.bad(n.Pos(), "assignment whose target is reached through the heap while the right-hand side has side effects")
+		}
+		if tvl.k == tkRec || tvl.k == tkSlice { // only `x := make(..)` / `it := recv.Iterator()`
+			id, isId := n.Lhs[0].(*ast.Ident)
+			c, isCall := n.Rhs[0].(*ast.CallExpr)
+			if !define || !isId || !isCall {
+				h.bad(n.Pos(), "a record / slice value that is not bound by `x := make(...)` / `it := receiver.M()`")
+			}
+			if tvl.k == tkSlice {
+				h.localSlice[id.Name] = true
+			} else {
+				sel, isSel := c.Fun.(*ast.SelectorExpr)
+				cf := h.tu.structs[tvl.s].containerField()
+				rid, _ := sel.X.(*ast.Ident)
+				if !isSel || rid == nil || rid.Name != h.fn.recv || h.fn.recvSt == nil || cf == nil || cf.ty.s != h.fn.recvSt.name {
+					h.bad(n.Pos(), "a record variable that is not an iterator built from the receiver")
+				}
+				h.localRec[id.Name] = true
+			}
 		}
 		p, e2 := h.assign(n.Lhs[0], v, tvl, define, e)
 		return b + p + next(e2)
@@ -1343,7 +1478,17 @@ func (l *tloop) call(app string, next tcont) string {
 // may dereference pointers and call methods).
 func (h *tfx) forStmt(n *ast.ForStmt, e tenv, next tcont) string {
 	if n.Cond == nil {
-		h.bad(n.Pos(), "loop without condition")
+		if !h.tu.u.Spec.BTree {
+			h.bad(n.Pos(), "loop without condition")
+		}
+		// B-tree mode: for { } = for true { }; without a `break` the code after the loop is unreachable
+		n = &ast.ForStmt{For: n.For, Init: n.Init, Cond: &ast.Ident{NamePos: n.For, Name: "true"}, Post: n.Post, Body: n.Body}
+		if _, sh := e.vars["true"]; sh {
+			h.bad(n.Pos(), "loop without condition where `true` is shadowed")
+		}
+		if !tHasBranch(n.Body) {
+			next = func(tenv) string { return "None (* unreachable: a loop without condition and without break *)" }
+		}
 	}
 	if h.fn.rec {
 		h.bad(n.Pos(), "loop inside a recursive function")
@@ -1534,7 +1679,7 @@ func (t *translator) treeUnit(u *unit) {
 					failed = true
 					break
 				}
-				nf := tflags{fn.fl.cnt || used.cnt, fn.fl.wh || used.wh, fn.fl.wr || used.wr, fn.fl.fuel || used.fuel, fn.fl.needs || used.needs}
+				nf := tflags{fn.fl.cnt || used.cnt, fn.fl.wh || used.wh, fn.fl.wr || used.wr, fn.fl.fuel || used.fuel, fn.fl.needs || used.needs, fn.fl.root || used.root, fn.fl.wroot || used.wroot}
 				if nf != fn.fl {
 					fn.fl, changed = nf, true
 				}
@@ -1613,6 +1758,9 @@ func (tu *tunit) collectTypes() {
 				}
 				switch x := ts.Type.(type) {
 				case *ast.StructType:
+					if tu.btPairDecl(ts, x) { // B-tree mode: Entry{Key, Value} is a pair value, not a record
+						continue
+					}
 					s := &tstruct{name: ts.Name.Name, pos: ts.Pos(), cell: ts.Name.Name == u.Spec.Cell}
 					tu.structs[s.name] = s
 					tu.sorder = append(tu.sorder, s)
@@ -1652,6 +1800,7 @@ func (tu *tunit) collectTypes() {
 				t.unsupported(p.s.pos, "embedded field in struct %s", p.s.name)
 			}
 			ft := tu.typeOf(f.typ)
+			tu.linkFieldCheck(f.typ.Pos(), ft, p.s.name, f.name) // treelink.go
 			fl := &tfield{name: f.name, ty: ft, coq: p.s.name + "_" + f.name}
 			if ft.k == tkRec {
 				if p.s.cell || p.s.containerField() != nil {
@@ -1752,7 +1901,7 @@ func (tu *tunit) names() {
 	for _, c := range tu.corder {
 		taken[tu.consts[c].coq]++
 	}
-	for _, w := range []string{"heap", "deref", "store", "alloc", "ptr_eqb", "is_nil", "cmp_mag", "fuel", "ncmp", "h", "hread", "ptr"} {
+	for _, w := range []string{"heap", "deref", "store", "alloc", "ptr_eqb", "is_nil", "cmp_mag", "fuel", "ncmp", "h", "hread", "ptr", "root", "link"} {
 		taken[w]++
 	}
 	for _, fn := range tu.funcs {
@@ -1779,7 +1928,7 @@ func (tu *tunit) names() {
 // one translation pass with the current flags of fn and of its callees; returns the effects observed
 func (tu *tunit) translate(fn *tfunc) tflags {
 	t := tu.t
-	h := &tfx{tu: tu, fn: fn, labels: map[string]int{}}
+	h := &tfx{tu: tu, fn: fn, labels: map[string]int{}, localSlice: map[string]bool{}, localRec: map[string]bool{}}
 	fd := fn.decl
 	e := tenv{vars: map[string]tvar{}}
 	var binders []string
@@ -1792,6 +1941,10 @@ func (tu *tunit) translate(fn *tfunc) tflags {
 	}
 	e = e.with(tvHeap, tty{k: tkHeap})
 	binders = append(binders, "(h : "+tty{k: tkHeap}.coq(tu)+")")
+	if fn.fl.root || fn.fl.wroot { // the content of the root slot: treelink.go
+		e = e.with(tvRoot, tty{k: tkPtr})
+		binders = append(binders, "("+tv(tvRoot)+" : "+tty{k: tkPtr}.coq(tu)+")")
+	}
 	if fn.recvSt != nil {
 		if cf := fn.recvSt.containerField(); cf != nil && fn.fl.needs {
 			e = e.with(cf.name, cf.ty)
@@ -1834,6 +1987,9 @@ func (tu *tunit) translate(fn *tfunc) tflags {
 	}
 	if fn.fl.wh {
 		rs = append(rs, tty{k: tkHeap}.coq(tu))
+	}
+	if fn.fl.wroot {
+		rs = append(rs, tty{k: tkPtr}.coq(tu))
 	}
 	if fn.fl.wr {
 		rs = append(rs, mangle(fn.recvSt.name))
@@ -1899,11 +2055,21 @@ func (t *translator) emitTree(u *unit) string {
 		fmt.Fprintf(&b, "   and:    %s\n", x)
 	}
 	fmt.Fprintf(&b, "   TREE POINTER MODE: a *%s is an address (option nat, nil = None) into a heap of %s records (GoTreeHeap.v); the other\n   structs are record values threaded through their methods; every function is in the option monad (None = nil\n   dereference / out of fuel) and returns the state components it changes (ncmp = number of comparator calls, h = heap,\n   the receiver record) followed by its results; loops and recursive functions are Fixpoints on explicit fuel;\n   ints are Z (overflow is NOT modelled), the type parameters K and V are Z.\n", tu.cell.name, tu.cell.name)
+	linkImport := ""
+	if tu.link != nil && tu.link.used { // treelink.go
+		linkImport = "From GodsGenProofs Require GoTreeLink. (* hand-written: pointers to pointers, /verif/srcgen/coq/GoTreeLink.v *)\n"
+		fmt.Fprintf(&b, "   a **%s is a GoTreeLink.link (LRoot = the root slot of the tree header, LChild a i = child slot i of the node at a);\n   a plain function that works on links takes / returns the content of the root slot (`root`).\n", tu.cell.name)
+	}
 	fmt.Fprintf(&b, "   translated: %s\n", strings.Join(names, ", "))
 	for _, s := range u.Skipped {
 		fmt.Fprintf(&b, "   SKIPPED explicitly: %s -- %s\n", s[0], s[1])
 	}
-	fmt.Fprintf(&b, "*)\nFrom Coq Require Import String.\nFrom Coq Require Import ZArith List Bool.\nFrom GodsGenProofs Require GoCmp. (* hand-written: comparators, /verif/srcgen/coq/GoCmp.v *)\nFrom GodsGenProofs Require Import GoTreeHeap. (* hand-written: heap of nodes, /verif/srcgen/coq/GoTreeHeap.v *)\nImport ListNotations.\nLocal Open Scope Z_scope.\n\n")
+	sliceReq := ""
+	if tu.usesSlice {
+		sliceReq = "From GodsGenProofs Require GoHeap. (* hand-written: checked slice writes / make, /verif/srcgen/coq/GoHeap.v *)\n"
+	}
+	fmt.Fprintf(&b, "*)\nFrom Coq Require Import String.\nFrom Coq Require Import ZArith List Bool.\nFrom GodsGenProofs Require GoCmp. (* hand-written: comparators, /verif/srcgen/coq/GoCmp.v *)\nFrom GodsGenProofs Require Import GoTreeHeap. (* hand-written: heap of nodes, /verif/srcgen/coq/GoTreeHeap.v *)\n%s%sImport ListNotations.\nLocal Open Scope Z_scope.\n\n", sliceReq, linkImport)
+	b.WriteString(tu.btRequire()) // B-tree mode: GoBTreeHeap.v
 	for _, s := range tu.sorder {
 		var fs []string
 		for _, f := range s.fields {
